@@ -2,12 +2,13 @@
 
 spec:     spec/ReproDoc.tla (reference: document = parts, paragraph = field instances [n,s,v,c];
           order_first/last/before/after, sort_fields, indexed/unindexed set and delete,
-          insert/append of paragraphs), start documents in spec/MC_ReproDoc.tla
+          insert/append of paragraphs, refused insert/append of already owned paragraphs), start documents in spec/MC_ReproDoc.tla
 binding:  (a) complete LTS of closed configurations replayed into debian._deb822_repro with
               dump()/keys/(name,i)/re-parse compared after every call
           (b) recorded histories on random documents validated by spec/TraceReproDoc.tla
 negative controls: corrupted traces (swapped fields, wrong outcome, lost comment, merged paragraph,
-          two tied neighbours exchanged after a keyed sort); spec level: ForwardLoopInOrderFirst
+          two tied neighbours exchanged after a keyed sort, a refused append that left a newline token /
+          changed the dump); spec level: MC_ReproDoc_neg_owned.cfg (refused append prepares the tail -> ErrAtomic), ForwardLoopInOrderFirst
           (implementation layer) and MC_ReproDoc_neg_sort.cfg (a sort whose ties fall back to the name
           order instead of the current order violates SortLawsFor -> NegSortByLaws reported by TLC)
 
@@ -24,6 +25,18 @@ harness/repro_common.py, shared with C05); what this check adds to the statement
     model = list.sort(key=f))              DefaultSortIsByName                  documents, both paragraph classes
   set/del indexed and unindexed         Assign / Del                         lts legs + trace leg
   Deb822FileElement.insert/append       InsertPara / AppendPara              lts legs (D, E) + trace leg
+  REFUSED structural calls as history   AppendOwned(w) / InsertOwned(idx, w):  lts legs (D, E): from every reachable document, every
+    steps: append(q) / insert(i, q) of    q belongs to another file (w = 0)    index, owner = other file / first / last paragraph;
+    a paragraph that already belongs      or is paragraph w of this document   trace leg: random owner and index inside the ordinary
+    to a file (also "the same one         -> ValueError, doc' = doc            histories.  Verdict observables: outcome, projection
+    twice"); order_*(absent name)         (ErrAtomic; control RefusedLeaves <-  AND dump() / token text byte-identical to the dump
+    -> in the domain: "any sequence of    NegRefusedPreparesTail in            before the call (run_path: model edge refused;
+    structural operations"; a refused     MC_ReproDoc_neg_owned.cfg); Move /    traces: observation `same`, judged by TraceReproDoc),
+    call is a step that permutes,         Rel with an absent key: Fail         then the history goes on
+    removes, inserts nothing
+  unspecified: WHETHER insert(i, q) of an owned q in front of an existing paragraph (i < number of
+    paragraphs) is refused - the code checks ownership only on the append path; refused -> nothing may
+    change (checked), accepted -> the history ends, the document is never judged again (diagnostic drift)
   out of domain / unspecified: key functions that raise or return mutually incomparable values; the
     spelling in which the key function sees a name (it is folded before the table lookup);
     Deb822Dict.sort_fields of debian.deb822 (not a format-preserving document).
@@ -37,12 +50,12 @@ import repro_common as rc
 
 MANIFEST = dict(
     technique="TLA+ spec ReproDoc (documents as sequences of field instances; keyed sorts as stable sorts of the current order) model-checked by TLC in closed configurations; complete LTS replayed into the format-preserving parser; recorded histories validated by TLC (TraceReproDoc)",
-    text="The reference model makes 'only whole fields/paragraphs are permuted, removed or inserted, byte for byte' literal: the text of a field is a function of its instance record, so the dump must equal the concatenation of instance texts in model order (modulo the one final newline). TLC checks the model's own invariants (no blob duplicated, every keyed sort is the stable sort of the current order, comments stay with their field, separators kept, paragraphs never adjacent, failing calls change nothing) over closed state spaces for paragraphs with unique and duplicated fields, document-level insert/append shapes and a mixed configuration; every LTS transition (quick: a seeded sample plus all transitions near the start) and long random walks are replayed into the real objects with dump, key order, (name,i) resolution, read-back values and a fresh re-parse compared after each call; random histories on random documents (5 names, 1-3 paragraphs, free comments, with/without final newline) are validated by TLC against the same actions.",
-    note="Small-scope: 3 names, <= 4 fields per paragraph in the closed configurations; layouts/values are sampled per replay. Out-of-range indexes and re-ordering an absent key relative to itself are unspecified (any error type accepted); deleting the last field of a paragraph is outside the domain; the side of a free comment on which insert() lands and the formatting of newly written values are diagnostics only. Trusted: TLC, the concretizer, the projection by text lookup.",
+    text="The reference model makes 'only whole fields/paragraphs are permuted, removed or inserted, byte for byte' literal: the text of a field is a function of its instance record, so the dump must equal the concatenation of instance texts in model order (modulo the one final newline). TLC checks the model's own invariants (no blob duplicated, every keyed sort is the stable sort of the current order, comments stay with their field, separators kept, paragraphs never adjacent, failing calls - including the refused append/insert of a paragraph that already belongs to a file, offered from every reachable document - change nothing) over closed state spaces for paragraphs with unique and duplicated fields, document-level insert/append shapes and a mixed configuration; every LTS transition (quick: a seeded sample plus all transitions near the start) and long random walks are replayed into the real objects with dump, key order, (name,i) resolution, read-back values and a fresh re-parse compared after each call; random histories on random documents (5 names, 1-3 paragraphs, free comments, with/without final newline) are validated by TLC against the same actions.",
+    note="Small-scope: 3 names, <= 4 fields per paragraph in the closed configurations; layouts/values are sampled per replay. Out-of-range indexes and re-ordering an absent key relative to itself are unspecified (any error type accepted); deleting the last field of a paragraph is outside the domain; whether insert() in front of an existing paragraph refuses an already owned paragraph is unspecified (refused: the dump must be byte-identical up to a supplied missing final newline; accepted: the history ends); the side of a free comment on which insert() lands and the formatting of newly written values are diagnostics only. Trusted: TLC, the concretizer, the projection by text lookup.",
     design="5 (C10)")
 
 ALLOPS = ["get", "set", "set", "del", "first", "last", "before", "after", "before", "after", "sort", "sortby", "sortby",
-          "insert", "append"]
+          "insert", "append", "appendo", "inserto"]
 
 
 def run(ctx):
@@ -51,9 +64,10 @@ def run(ctx):
         "closed configurations over 3 names; layouts, comments, separators and values concretized per replay (seeded)",
         "dump compared modulo one newline at the very end of the document",
         "unspecified: exception type for out-of-range (name, i); order_before/after(k, k) with k absent",
+        "unspecified: whether insert(i, q) in front of an existing paragraph refuses a paragraph q that already belongs to a file (accepted -> history ends)",
     ]
     # design-level runs (independent of /repo) go alongside the emission runs of the lts legs
-    also = [lambda: impl_layer(ctx, quick), lambda: sort_negative_control(ctx)]
+    also = [lambda: impl_layer(ctx, quick), lambda: sort_negative_control(ctx), lambda: owned_negative_control(ctx)]
     binding_legs(ctx, quick, also)
 
 
@@ -66,19 +80,36 @@ def sort_negative_control(ctx):
     ctx.extra["negative_control_sort_ties_by_name"] = neg.violated
 
 
+def owned_negative_control(ctx):
+    """non-vacuity of ErrAtomic for refused document-level calls: a refused append / insert that
+    leaves its separating newline behind the last paragraph is reported"""
+    import core
+    neg = ctx.tlc("MC_ReproDoc", "MC_ReproDoc_neg_owned.cfg", workers=1, count=False)
+    if neg.violated != "ErrAtomic":
+        raise core.MachineryError("negative control: a refused append that prepared the tail is not rejected by ErrAtomic (%r)" % (neg.violated,))
+    ctx.extra["negative_control_refused_append_prepares_tail"] = neg.violated
+
+
+def prefer(e, depth):
+    """edges replayed first when the budget does not cover a configuration: everything near the start
+    and every SUCCESSFUL insert / append (the refused calls are self-loops from every state and would
+    otherwise crowd them out of the sample)"""
+    return depth <= 1 or e["op"] in ("insert", "append")
+
+
 def binding_legs(ctx, quick, also):
     if quick:
         rc.lts_legs(ctx, [("MC_ReproDoc_QA.cfg", (1, 2, 3), 1800, 60, 25, 1),
                           ("MC_ReproDoc_QB.cfg", (1, 2, 3), 1800, 60, 25, 1),
-                          ("MC_ReproDoc_D.cfg", (1, 2), 800, 30, 6, 2),
-                          ("MC_ReproDoc_E.cfg", (1, 2), 1000, 40, 20, 1)], also)
+                          ("MC_ReproDoc_D.cfg", (1, 2), 1500, 30, 6, 2),
+                          ("MC_ReproDoc_E.cfg", (1, 2), 1100, 40, 20, 1)], also, prefer)
         rc.trace_leg(ctx, 300, 20, ALLOPS)
     else:
         rc.lts_legs(ctx, [("MC_ReproDoc_A.cfg", (1, 2, 3), 30000, 600, 40, 2),
                           ("MC_ReproDoc_B.cfg", (1, 2, 3), 40000, 600, 40, 1),
                           ("MC_ReproDoc_C.cfg", (1, 2, 3), 30000, 600, 40, 1),
                           ("MC_ReproDoc_D.cfg", (1, 2), 10 ** 9, 200, 8, 4),
-                          ("MC_ReproDoc_E.cfg", (1, 2), 10 ** 9, 300, 30, 3)], also)
+                          ("MC_ReproDoc_E.cfg", (1, 2), 10 ** 9, 300, 30, 3)], also, prefer)
         rc.trace_leg(ctx, 5000, 30, ALLOPS)
 
 
